@@ -119,6 +119,10 @@ def run(ctx):
     check_scale(ctx)
     check_weaver(ctx, wm)
     check_entropy(ctx)
+    from .common import dt_function, dt_weaver, DT_RULE
+    ctx.rule('C15.5', DT_RULE)
+    dt_function(ctx, 'C15.5', NOISE, {'a': 'a'})
+    dt_weaver(ctx, 'C15.5', wm, ['noise'])
     ctx.notes.append('NOT DECIDED: the statistical clause (empirical SNR of a long series).')
     ctx.trust('numpy.random.normal(loc, scale, size) draws N(loc, scale^2) from the global generator (library contract)',
               'signature binding by inspect.signature of the installed NumPy')
